@@ -3,6 +3,7 @@ CONSTANTS
   MAXU = 15
   W = 3
   Denoms = {1}
+  Mins = {0}
   Sinces = {0, 1, 2, 3, 4, 6, 15}
 INVARIANTS WindowInWord WindowShift TotalIsCappedSum TotalMonotone
 CHECK_DEADLOCK FALSE
